@@ -184,7 +184,11 @@ Fixpoint search_loop (fuel : nat) (h : heap) (v : view) (slm : slmode) (vol pare
                 else if check_permission m OpenLookup (v_user v)
                      then search_loop f h v slm vol c pi1 slcount saved
                      else ret EPermDenied
-            | Some (NFile _ _ _ _) => if last then ret EFileExists else ret ENotADirectory
+            | Some (NFile _ _ _ _) =>
+                (* vfs.err.NotADirectory and vfs.err.NoSuchDir are the SAME value on Windows (ErrWinPathNotFound,
+                   errors.go Errors.SetOSType), and the callers compare error values (isNotExist) *)
+                if last then ret EFileExists
+                else ret (match v_os v with Windows => ENoSuchDir | Linux => ENotADirectory end)
             | Some (NSym link _) =>
                 let slcount' := S slcount in
                 if Nat.ltb slCountMax slcount' then ret ETooManySymlinks
